@@ -2,9 +2,6 @@
 import PgProofs.ConcLemmas
 namespace Pg.C16
 
-/-- The fed-back predicate: COMPLETED, not skipped, id `k`. -/
-def fedPred (k : Nat) (t : Trial) : Bool := t.completed && !t.infeasible && t.id == k
-
 /-- Bookkeeping invariant of a study `st` and the algorithm `a` it feeds. -/
 structure StudyInv (maxT : Option Nat) (st : Study) (a : Algo) : Prop where
   ids : st.trials.map (·.id) = List.range' 1 st.trials.length
